@@ -223,3 +223,68 @@ Example dedup_sound_nonvacuous :
   /\ yield_all 3 3 ex_fs ex_har [[1; 0]; [1; 1]; [1; 2]]%Z
      = FOk [[[1; 0]; [1; 1]]; [[1; 0]; [1; 1]]; [[1; 1]; [1; 2]]; [[1; 1]; [1; 2]]]%Z.
 Proof. vm_compute. eexists. repeat split. Qed.
+
+(** ** The cell part on REAL RUNS.
+    [check_tcase_run] (Model/OccupancyRun.v) replays one occupancy of a traced real run (as [check_ocase], C11) and
+    requires at every recorded state that what every cell-based tagger connected to the occupancy really generated
+    ([fresh]: its [yield_identifiers_send_event_time] on the current active state) equals the model's tagger function
+    on the replayed state, as a multiset of in-state tuples; deactivated taggers generate nothing. *)
+Require Import JF.Model.OccupancyRun JF.Proofs.OccupancyRunProofs.
+
+(** the index-tuple torus is a cell system in the sense of [cellsys_ok], for every dimension, all positive counts and
+    every number of neighbour layers *)
+Theorem torus_cs_ok :
+  forall (ns : list Z) (l : Z), Forall (fun n => (0 < n)%Z) ns -> (0 <= l)%Z -> cellsys_ok (torus_cs ns l).
+Proof. exact OccupancyRunProofs.torus_cs_ok. Qed.
+Print Assumptions torus_cs_ok.
+
+(** every accepted run, of any length, at every recorded state with a relevant active unit: the targets of the
+    RECORDED generations of the nearby tagger and of the surplus tagger, together with the far family -- the occupants
+    of the cells the cell-veto handler can sample ([cell_veto_targets] of the replayed state = the recorded
+    internals), or the targets of the recorded generation of a cell-bounding tagger -- are a permutation of all other
+    relevant units ([partition_at]) *)
+Theorem run_cells_partition :
+  forall c : tcase, check_tcase_run c = true ->
+  exists states,
+    run_case (tc_o c) = Some states
+    /\ Forall2 (partition_at (case_cs c) (case_units (tc_o c))) states (tc_gens c).
+Proof. exact OccupancyRunProofs.run_cells_partition. Qed.
+Print Assumptions run_cells_partition.
+
+(** non-vacuity: box of length 1, 4 cells on a ring, one neighbour layer, limit 1, units at 0.1 and 0.6; unit (0,)
+    becomes active (unit (1,) is two cells away: cell-bounding event), crosses into cell 1 (unit (1,) is now nearby),
+    then unit (1,) becomes active *)
+Definition ex_tcase : tcase :=
+  mkTCase
+    (mkOCase [4607182418800017408%Z] [4%Z] 1%Z
+       [([0%Z], [4591870180066957722%Z], true); ([1%Z], [4603579539098121011%Z], true)]
+       (mkOSnap [([0%Z], [[0%Z]]); ([2%Z], [[1%Z]])] [] None None)
+       [mkOLeg false [0%Z] [4591870180066957722%Z] true
+          [([0%Z], [4591870180066957722%Z]); ([1%Z], [4603579539098121011%Z])]
+          (mkOSnap [([2%Z], [[1%Z]])] [] (Some [0%Z]) (Some [0%Z]));
+        mkOLeg true [0%Z] [4598175219545276416%Z] true
+          [([0%Z], [4598175219545276416%Z]); ([1%Z], [4603579539098121011%Z])]
+          (mkOSnap [([2%Z], [[1%Z]])] [] (Some [1%Z]) (Some [0%Z]));
+        mkOLeg false [1%Z] [4603579539098121011%Z] true
+          [([0%Z], [4598175219545276416%Z]); ([1%Z], [4603579539098121011%Z])]
+          (mkOSnap [([1%Z], [[0%Z]])] [] (Some [2%Z]) (Some [1%Z]))])
+    1%Z
+    [[mkTGen TBounding true []; mkTGen TNearby true []; mkTGen TSurplus true []; mkTGen TBoundary true []];
+     [mkTGen TBounding true [[[0%Z]; [1%Z]]]; mkTGen TNearby true []; mkTGen TSurplus true [];
+      mkTGen TBoundary true [[[0%Z]]]];
+     [mkTGen TBounding true []; mkTGen TNearby true [[[0%Z]; [1%Z]]]; mkTGen TSurplus true [];
+      mkTGen TBoundary true [[[0%Z]]]];
+     [mkTGen TBounding true []; mkTGen TNearby true [[[1%Z]; [0%Z]]]; mkTGen TSurplus false [];
+      mkTGen TBoundary true [[[1%Z]]]]].
+
+Example run_cells_partition_nonvacuous :
+  check_tcase_run ex_tcase = true
+  /\ (* a run in which the nearby tagger misses the partner is rejected *)
+     check_tcase_run (mkTCase (tc_o ex_tcase) 1%Z
+                        (map (map (fun g => match tg_kind g with
+                                            | TNearby => mkTGen TNearby true []
+                                            | _ => g end)) (tc_gens ex_tcase))) = false.
+Proof. vm_compute. auto. Qed.
+
+Example torus_cs_ok_nonvacuous : cellsys_ok (torus_cs [6%Z; 6%Z; 6%Z] 2) /\ cellsys_ok (torus_cs [3%Z; 5%Z; 7%Z] 1).
+Proof. split; apply torus_cs_ok; repeat constructor; discriminate. Qed.
